@@ -15,7 +15,9 @@ Record svc := Svc {
   s_action : action;
   s_run : nat;            (* gated segments it runs by itself after starting *)
   s_ends : bool;          (* then returns by itself (otherwise it waits until told / cancelled) *)
-  s_cleanup : nat }.      (* gated (shielded) segments of cleanup after being cancelled or told to stop *)
+  s_cleanup : nat;        (* gated (shielded) segments of cleanup after being cancelled or told to stop *)
+  s_ctx : nat }.          (* gated (shielded) segments of teardown of the task's OWN context, after the task
+                             function has returned; the task has finished only when they are through *)
 
 Inductive bop := RegCb (id : nat) | StartSvc (sid : nat) | EndBlock.
 
@@ -26,6 +28,7 @@ Inductive tstate :=
 | TRun (left : nat)       (* running its own segments; at the gate of the next one when left > 0 *)
 | TWait                   (* waiting to be told to stop *)
 | TCleanup (left : nat)
+| TCtx (left : nat)       (* the task function is over; the task's own context is being torn down *)
 | TDone.
 
 Inductive obs :=
@@ -36,6 +39,7 @@ Inductive obs :=
 | CancelSeen (sid : nat)         (* the task observed cancellation *)
 | StopSeen (sid : nat)           (* the task noticed the request to stop *)
 | Clean (sid : nat)              (* one cleanup segment *)
+| CtxSeg (sid : nat)             (* one segment of the teardown of the task's own context *)
 | Finished (sid : nat)           (* the task returned and its own context was torn down *)
 | Left.                          (* the owning `async with` block has been left *)
 
@@ -56,7 +60,7 @@ Fixpoint upd {A} (l : list A) (i : nat) (x : A) : list A :=
 Definition set_task (s : st) (sid : nat) (t : tstate) : st := St (own s) (regs s) (upd (tasks s) sid t) (stopreq s).
 Definition set_own (s : st) (o : owner) : st := St o (regs s) (tasks s) (stopreq s).
 
-Definition svc_of (SV : list svc) (sid : nat) : svc := nth sid SV (Svc ANone 0 true 0).
+Definition svc_of (SV : list svc) (sid : nat) : svc := nth sid SV (Svc ANone 0 true 0 0).
 
 (* cancelling a task: one that is still running (at a gate or waiting) observes the cancellation
    and goes on to its cleanup; one that has finished, or is already cleaning up, is unaffected *)
@@ -85,9 +89,10 @@ Definition silent_task (SV : list svc) (s : st) (sid : nat) : option (st * list 
   match ts s sid with
   | TRun 0 =>
       if existsb (Nat.eqb sid) (stopreq s) then Some (set_task s sid (TCleanup (s_cleanup (svc_of SV sid))), [StopSeen sid])
-      else if s_ends (svc_of SV sid) then Some (set_task s sid TDone, [Finished sid])
+      else if s_ends (svc_of SV sid) then Some (set_task s sid (TCtx (s_ctx (svc_of SV sid))), [])
       else Some (set_task s sid TWait, [])
-  | TCleanup 0 => Some (set_task s sid TDone, [Finished sid])
+  | TCleanup 0 => Some (set_task s sid (TCtx (s_ctx (svc_of SV sid))), [])
+  | TCtx 0 => Some (set_task s sid TDone, [Finished sid])
   | _ => None
   end.
 
@@ -132,13 +137,13 @@ Fixpoint settle (fuel : nat) (SV : list svc) (s : st) : st * list obs :=
 Inductive gate := GBlock | GTask (sid : nat).
 
 Definition task_at_gate (t : tstate) : bool :=
-  match t with TRun (S _) | TCleanup (S _) => true | _ => false end.
+  match t with TRun (S _) | TCleanup (S _) | TCtx (S _) => true | _ => false end.
 
 Definition enabled (SV : list svc) (s : st) : list gate :=
   (match own s with InBlock (_ :: _) => [GBlock] | _ => [] end) ++
   map GTask (filter (fun sid => task_at_gate (ts s sid)) (seq 0 (length SV))).
 
-Definition fuel_for (SV : list svc) (prog : list bop) : nat := 4 * length SV + 2 * length prog + 8.
+Definition fuel_for (SV : list svc) (prog : list bop) : nat := 6 * length SV + 2 * length prog + 8.
 
 Definition fire (SV : list svc) (prog : list bop) (s : st) (g : gate) : st * list obs :=
   match g with
@@ -160,6 +165,7 @@ Definition fire (SV : list svc) (prog : list bop) (s : st) (g : gate) : st * lis
       match ts s sid with
       | TRun (S k) => let '(s2, o2) := settle (fuel_for SV prog) SV (set_task s sid (TRun k)) in (s2, Seg sid :: o2)
       | TCleanup (S k) => let '(s2, o2) := settle (fuel_for SV prog) SV (set_task s sid (TCleanup k)) in (s2, Clean sid :: o2)
+      | TCtx (S k) => let '(s2, o2) := settle (fuel_for SV prog) SV (set_task s sid (TCtx k)) in (s2, CtxSeg sid :: o2)
       | _ => (s, [])
       end
   end.
